@@ -95,14 +95,26 @@ MpcLayout(n) == <<"sid">> \o MpcTerms(1, n)
 Tabdmp1Layout(n) == <<"id", "type">> \o Rep("", 6) \o [i \in 1..(2 * n) |-> (IF i % 2 = 1 THEN "f" ELSE "g") \o ToString((i + 1) \div 2)] \o <<"ENDT">>
 Tload1Layout == <<"sid", "exciteid", "delay", "type", "tid">>
 Tload2Layout == <<"sid", "exciteid", "delay", "type", "t1", "t2", "f", "p", "c", "b">>
+\* RBE3: element id, a blank, the dependent grid and its DOF, then groups <<weight, DOF, grids...>> one after the other across continuation
+\* lines; the optional "UM" list (pairs grid, DOF) and "ALPHA" each start in field 2 of a NEW line (the line before is padded with blanks)
+PadToLine(L) == L \o Rep("", (8 - (Len(L) % 8)) % 8)
+Rbe3Base(n) == <<"eid", "", "refg", "refc", "wt1", "c1">> \o [i \in 1..n |-> "g" \o ToString(i)] \o <<"wt2", "c2", "h1", "h2">>
+Rbe3Um == <<"UM", "m1", "mc1", "m2", "mc2", "m3", "mc3">>
+Rbe3Layout(n, um, alpha) == LET b0 == Rbe3Base(n)
+                                b1 == IF um THEN PadToLine(b0) \o Rbe3Um ELSE b0
+                            IN IF alpha THEN PadToLine(b1) \o <<"ALPHA", "alpha">> ELSE b1
 LayoutLaws == Mode = "layouts" =>
+   /\ \A n \in 1..MaxN : LET L == Rbe3Layout(n, TRUE, TRUE) IN
+         \A i \in 1..Len(L) : L[i] \in {"UM", "ALPHA"} => i % 8 = 1                 \* keywords stand in field 2 of their line
    /\ \A n \in 1..MaxN : Len(Rbe2Layout(n)) = n + 3 /\ Len(Tabdmp1Layout(n)) = 2 * n + 9
    /\ \A n \in 1..MaxN : LET L == MpcLayout(n) IN
          /\ Len(SelectSeq(L, LAMBDA x : x # "")) = 3 * n + 1
          /\ \A i \in 1..Len(L) : L[i] = "" => (i % 8 = 0 \/ i % 8 = 1)           \* blanks only in fields 9 and 2 of the lines (name = field 1)
 ExportLayouts == (Mode = "layouts" /\ Export) =>
    PrintT(<<"LAYOUT", q, [rbe2 |-> Rbe2Layout(q), mpc |-> MpcLayout(q), tabdmp1 |-> Tabdmp1Layout(q), conm2 |-> Conm2Layout,
-                          tload1 |-> Tload1Layout, tload2 |-> Tload2Layout]>>)
+                          tload1 |-> Tload1Layout, tload2 |-> Tload2Layout,
+                          rbe3 |-> Rbe3Layout(q, FALSE, FALSE), rbe3um |-> Rbe3Layout(q, TRUE, FALSE), rbe3umalpha |-> Rbe3Layout(q, TRUE, TRUE),
+                          rbe3alpha |-> Rbe3Layout(q, FALSE, TRUE)]>>)
 ExportLists == (Mode = "lists" /\ Export) => PrintT(<<"IDS", Ids, Runs(Ids), TableLines(Len(Ids), 4), TableLines(Len(Ids), 2)>>)
 ExportDmig == (Mode = "dmig" /\ Export) =>
    LET r == q[1][1] c == q[1][2] M == q[2] f == Form(M, r, c, q[3]) IN
